@@ -177,6 +177,40 @@ fn child(ctx: &Ctx, k: usize, n: usize) -> i32 {
         for pos in 0..l { for sub in SUBST { if !mine() { continue; } let s: String = base.chars().enumerate().map(|(i, c)| if i == pos { sub.to_string() } else { c.to_string() }).collect(); header_entries(&s, &mut t); } }
     }
     t.entries.insert("headers".into());
+    // (e) every concrete field type and every option family on every single boundary mutation of every
+    // canonical instance (incl. the byte-length preserving non-ASCII substitutions): the inputs on which
+    // C05 judges acceptance, here judged only for totality
+    for kd in crate::spec::m1::kinds() {
+        let fams: Vec<(&str, String)> = crate::spec::families::FAMILIES.iter().filter(|(_, _, members)| members.contains(&kd.tag)).map(|(ty, num, _)| (*ty, kd.tag[num.len()..].to_string())).collect();
+        for (_, inst) in (kd.insts)() {
+            let muts = super::c05::boundary_mutations(&inst);
+            let step = if ctx.thorough { 1 } else { 3 };
+            for m in muts.iter().step_by(step) {
+                if !mine() { continue; }
+                t.evals += 1;
+                with_field!(kd.ty, T => {
+                    match guarded(|| <T as SwiftField>::parse(m)) {
+                        Ok(Ok(f)) => { t.oks += 1; if let Err(l) = guarded(|| { let _ = f.to_swift_string(); if let Ok(j) = serde_json::to_value(&f) { let _ = serde_json::from_value::<T>(j); } }) { t.panic(&format!("{}:on-value", kd.ty), &l, m); } }
+                        Ok(Err(_)) => { t.errs += 1; }
+                        Err(l) => t.panic(&format!("{}::parse", kd.ty), &l, m),
+                    }
+                }, else => {});
+                for (fty, letter) in &fams {
+                    t.evals += 2;
+                    with_field!(*fty, T => {
+                        for variant in [None, Some(letter.as_str())] {
+                            match guarded(|| <T as SwiftField>::parse_with_variant(m, variant, None)) {
+                                Ok(Ok(f)) => { t.oks += 1; if let Err(l) = guarded(|| { let _ = f.to_swift_string(); let _ = f.get_variant_tag(); }) { t.panic(&format!("{fty}:on-value"), &l, m); } }
+                                Ok(Err(_)) => { t.errs += 1; }
+                                Err(l) => t.panic(&format!("{fty}::parse"), &l, m),
+                            }
+                        }
+                    }, else => {});
+                }
+            }
+        }
+    }
+    t.entries.insert("field-instances".into());
     let out = json!({"evals": t.evals, "oks": t.oks, "errs": t.errs, "panics": t.panics.iter().map(|(k, (w, i))| json!({"key": k, "what": w, "input": i})).collect::<Vec<_>>(), "cases": idx});
     match std::env::var("VERIF_C07_OUT") { Ok(p) => { let _ = std::fs::write(p, format!("CHILD-RESULT {out}\n")); } Err(_) => println!("CHILD-RESULT {out}") }
     0
